@@ -7,6 +7,18 @@ func init() {
 	const txs = "internal/storage/ledgerstore/transactions.go"
 	const nums = "internal/numscript.go"
 	addMutants(
+		Mutant{Property: "C11", Name: "reference-lookup-skips-reverted-sql", File: "internal/storage/ledgerstore/transactions.go",
+			Old: "\t\t\t\tWhere(\"transactions.reference = ?\", ref).\n\t\t\t\tWhere(\"transactions.ledger = ?\", store.name).", New: "\t\t\t\tWhere(\"transactions.reference = ?\", ref).\n\t\t\t\tWhere(\"transactions.ledger = ?\", store.name).\n\t\t\t\tWhere(\"transactions.reverted_at is null\").", Expect: "R11d:(*internal/storage/ledgerstore.Store)"},
+		Mutant{Property: "C11", Name: "reference-lookup-skips-reverted-inmemory", File: "internal/storage/inmemory.go",
+			Old: "\t\treturn transaction.Reference == ref\n", New: "\t\treturn transaction.Reference == ref && !transaction.Reverted\n", Expect: "R11d:(*internal/storage.InMemoryStore)"},
+		Mutant{Property: "C11", Name: "reference-lookup-inmemory-as-loop", File: "internal/storage/inmemory.go",
+			Old: "\tfiltered := collectionutils.Filter(m.transactions, func(transaction *ledger.ExpandedTransaction) bool {\n\t\treturn transaction.Reference == ref\n\t})\n\tif len(filtered) == 0 {\n\t\treturn nil, sqlutils.ErrNotFound\n\t}\n\treturn filtered[0], nil", New: "\tfor _, transaction := range m.transactions {\n\t\tif transaction.Reference == ref {\n\t\t\treturn transaction, nil\n\t\t}\n\t}\n\treturn nil, sqlutils.ErrNotFound", Expect: "none", Benign: true},
+		Mutant{Property: "C07", Name: "ik-lookup-only-transactions", File: "internal/storage/ledgerstore/logs.go",
+			Old: "\t\t\t\tWhere(\"idempotency_key = ?\", key).\n\t\t\t\tWhere(\"ledger = ?\", store.name)", New: "\t\t\t\tWhere(\"idempotency_key = ?\", key).\n\t\t\t\tWhere(\"type = 'NEW_TRANSACTION'\").\n\t\t\t\tWhere(\"ledger = ?\", store.name)", Expect: "R07e:"},
+		Mutant{Property: "C07", Name: "ik-lookup-inmemory-skips-metadata-logs", File: "internal/storage/inmemory.go",
+			Old: "\t\treturn log.IdempotencyKey == key\n", New: "\t\treturn log.IdempotencyKey == key && log.Type == ledger.NewTransactionLogType\n", Expect: "R07e:"},
+		Mutant{Property: "C07", Name: "ik-lookup-ledger-predicate-first", File: "internal/storage/ledgerstore/logs.go",
+			Old: "\t\t\t\tWhere(\"idempotency_key = ?\", key).\n\t\t\t\tWhere(\"ledger = ?\", store.name)", New: "\t\t\t\tWhere(\"logs.ledger = ?\", store.name).\n\t\t\t\tWhere(\"logs.idempotency_key = ?\", key)", Expect: "none", Benign: true},
 		Mutant{Property: "C07", Name: "ik-released-before-executor", File: ctxf,
 			Old: "\t\tdefer e.commander.referencer.release(referenceIks, ik)\n\n\t\tchainedLog, err := e.commander.store.ReadLogWithIdempotencyKey(ctx, ik)\n\t\tif err == nil {\n\t\t\treturn chainedLog, nil\n\t\t}",
 			New: "\t\tchainedLog, err := e.commander.store.ReadLogWithIdempotencyKey(ctx, ik)\n\t\te.commander.referencer.release(referenceIks, ik)\n\t\tif err == nil {\n\t\t\treturn chainedLog, nil\n\t\t}", Expect: "R07a:"},
